@@ -657,9 +657,40 @@ func c05Damage(r *Rand, s string) string {
 func c05Input(r *Rand, kind string) string {
 	s := c05InputPlain(r, kind)
 	if r.Bool(0.25) {
-		s = c05Damage(r, s)
+		s = c05SafeDamage(r, s)
 	}
 	return s
+}
+
+// c05MaskVolatile hides the value of an evaluation whose compiled program calls a clock or random function:
+// two evaluations of it legitimately differ. The program itself is still compared.
+func c05MaskVolatile(s string) string {
+	i := strings.Index(s, " eval=value:")
+	if i < 0 {
+		return s // no value (an error, or not an evaluation)
+	}
+	low := strings.ToLower(s[:i])
+	for _, n := range []string{`"rnd"`, `"random"`, `"now"`, `"ticks"`} {
+		if strings.Contains(low, n) {
+			return s[:i] + " eval=value:<depends on the clock or the random source>"
+		}
+	}
+	return s
+}
+
+// c05SafeDamage is c05Damage unless the damaged text mentions a clock or random function: the generators
+// use those only inside predicates whose value does not depend on them ("(Random() >= 0)"), and an edit can
+// free the call from its predicate ("RAnDom()") - two evaluations of that legitimately differ, which would
+// be a false alarm of the fresh-instance comparison (it was: thorough tier, run 143274).
+func c05SafeDamage(r *Rand, s string) string {
+	d := c05Damage(r, s)
+	low := strings.ToLower(d)
+	for _, name := range []string{"rnd", "random", "now", "ticks"} {
+		if strings.Contains(low, name) {
+			return s
+		}
+	}
+	return d
 }
 
 func c05InputPlain(r *Rand, kind string) string {
@@ -766,7 +797,7 @@ func c05GenTask(r *Rand, kind string, faults bool, first, second int) TaskPlan {
 				// twin, an element emptied or cut), in either order
 				j := r.Intn(len(tp.Ops))
 				if tp.Ops[j].Op != "config" && tp.Ops[j].Op != "pveval" && tp.Ops[j].F == nil {
-					o.S = c05Damage(r, tp.Ops[j].S)
+					o.S = c05SafeDamage(r, tp.Ops[j].S)
 					if r.Bool(0.5) {
 						o.S, tp.Ops[j].S = tp.Ops[j].S, o.S
 					}
@@ -885,6 +916,7 @@ func (propC05) Exec(p *Plan, x *Ctx) *Outcome {
 				r.configured = len(in.configs) > 0
 				run.ResetOpSteps()
 				r.fresh, _ = fresh.step(o, tp.Sets, &r.dry)
+				r.got, r.fresh = c05MaskVolatile(r.got), c05MaskVolatile(r.fresh)
 			}
 		})
 	}
